@@ -61,5 +61,143 @@ def WF (c : Nat) (s : Linked α) : Prop :=
 /-- `new(linkedNodes)` -/
 def empty (c : Nat) (zero : α) : Linked α := { head := List.replicate c zero, tail := [], size := 0 }
 
+/-! ## the remaining mutators reached from the public API
+
+`*self.At(i) = v` (through the pointer `At` hands out) is `assign`; the soft deletion of
+`removeNode` / `removePair` / `removePairAt` (ast/node.go:1679-1707) is `assign i zero`; `Swap`
+(ast/buffer.go:404) and `MoveOne` (ast/buffer.go:63) are loops of such assignments; the tail loop of
+`Node.Pop` (ast/node.go:919-941) is a loop of `Pop()`. -/
+
+/-- `*self.At(i) = v` for a slot in use -/
+def assign (c : Nat) (s : Linked α) (i : Nat) (v : α) : Linked α :=
+  if i < s.size then
+    if i < c then { s with head := s.head.set i v }
+    else { s with tail := s.tail.modify (i / c - 1) (fun ch => ch.set (i % c) v) }
+  else s
+
+/-- `*self.At(dst) = *self.At(src)` -/
+def copySlot (c : Nat) (s : Linked α) (dst src : Nat) : Linked α :=
+  match slot c s src with
+  | some v => assign c s dst v
+  | none => s
+
+/-- `for i := from; k times; i++ { *At(i) = *At(i+1) }` -/
+def shiftUp (c : Nat) : Nat → Nat → Linked α → Linked α
+  | 0, _, s => s
+  | k + 1, i, s => shiftUp c k (i + 1) (copySlot c s i (i + 1))
+
+/-- `for i := from; k times; i-- { *At(i) = *At(i-1) }` -/
+def shiftDown (c : Nat) : Nat → Nat → Linked α → Linked α
+  | 0, _, s => s
+  | k + 1, i, s => shiftDown c k (i - 1) (copySlot c s i (i - 1))
+
+/-- `MoveOne(source, target)` (ast/buffer.go:63) -/
+def moveOne (c : Nat) (s : Linked α) (source target : Nat) : Linked α :=
+  if source = target then s
+  else if source ≥ s.size ∨ target ≥ s.size then s
+  else
+    match slot c s source with
+    | none => s
+    | some n =>
+      let s' := if source < target then shiftUp c (target - source) source s
+                else shiftDown c (source - target) source s
+      assign c s' target n
+
+/-- `Swap(i, j)` (ast/buffer.go:404), without the index bookkeeping -/
+def swap (c : Nat) (s : Linked α) (i j : Nat) : Linked α :=
+  match slot c s i, slot c s j with
+  | some a, some b => assign c (assign c s i b) j a
+  | _, _ => s
+
+/-- the tail loop of `Node.Pop` (ast/node.go:919-926, 934-941): `Pop()` until a live slot went -/
+def popLoop (c : Nat) (zero : α) (live : α → Bool) : Nat → Linked α → Linked α × Bool
+  | 0, s => (s, false)
+  | k + 1, s =>
+    match slot c s (s.size - 1) with
+    | none => (s, false)
+    | some x => if live x then (pop c zero s, true) else popLoop c zero live k (pop c zero s)
+
+/-- a chunk filled from the front, zero elsewhere -/
+def pad (c : Nat) (zero : α) (l : List α) : List α := l ++ List.replicate (c - l.length) zero
+
+/-- the tail chunks `FromSlice` allocates and fills (`fuel` ≥ the number of elements left) -/
+def chunksOf (c : Nat) (zero : α) : Nat → List α → List (List α)
+  | 0, _ => []
+  | f + 1, l => if l.isEmpty then [] else pad c zero (l.take c) :: chunksOf c zero f (l.drop c)
+
+/-- `FromSlice(con)` (ast/buffer.go:161, 372): `NewArray` / `NewObject` -/
+def fromSlice (c : Nat) (zero : α) (con : List α) : Linked α :=
+  { head := pad c zero (con.take c), tail := chunksOf c zero con.length (con.drop c), size := con.length }
+
+/-- one mutator of the container, as the public API reaches them -/
+inductive COp (α : Type) where
+  | assign (i : Nat) (v : α)       -- SetByIndex / Set on an existing key: `*p = node`
+  | unset (i : Nat)                -- soft delete
+  | push (v : α)                   -- Add / Set of a new key / lazy loading
+  | pop                            -- `Pop()`
+  | moveOne (src dst : Nat)        -- Move
+  | swap (i j : Nat)               -- Sort
+
+def applyOp (c : Nat) (zero : α) (s : Linked α) : COp α → Linked α
+  | .assign i v => assign c s i v
+  | .unset i => assign c s i zero
+  | .push v => push c zero s v
+  | .pop => pop c zero s
+  | .moveOne a b => moveOne c s a b
+  | .swap i j => swap c s i j
+
+def runOps (c : Nat) (zero : α) : Linked α → List (COp α) → Linked α
+  | s, [] => s
+  | s, o :: os => runOps c zero (applyOp c zero s o) os
+
 end Linked
+
+/-! ## the same mutators on a plain list -/
+
+namespace LOps
+variable {α : Type}
+
+def assign (l : List α) (i : Nat) (v : α) : List α := l.set i v
+
+def copySlot (l : List α) (dst src : Nat) : List α :=
+  match l[src]? with
+  | some v => l.set dst v
+  | none => l
+
+def shiftUp : Nat → Nat → List α → List α
+  | 0, _, l => l
+  | k + 1, i, l => shiftUp k (i + 1) (copySlot l i (i + 1))
+
+def shiftDown : Nat → Nat → List α → List α
+  | 0, _, l => l
+  | k + 1, i, l => shiftDown k (i - 1) (copySlot l i (i - 1))
+
+def moveOne (l : List α) (source target : Nat) : List α :=
+  if source = target then l
+  else if source ≥ l.length ∨ target ≥ l.length then l
+  else
+    match l[source]? with
+    | none => l
+    | some n =>
+      (if source < target then shiftUp (target - source) source l
+       else shiftDown (source - target) source l).set target n
+
+def swap (l : List α) (i j : Nat) : List α :=
+  match l[i]?, l[j]? with
+  | some a, some b => (l.set i b).set j a
+  | _, _ => l
+
+def applyOp (zero : α) (l : List α) : Linked.COp α → List α
+  | .assign i v => l.set i v
+  | .unset i => l.set i zero
+  | .push v => l ++ [v]
+  | .pop => l.dropLast
+  | .moveOne a b => moveOne l a b
+  | .swap i j => swap l i j
+
+def runOps (zero : α) : List α → List (Linked.COp α) → List α
+  | l, [] => l
+  | l, o :: os => runOps zero (applyOp zero l o) os
+
+end LOps
 end SonicSpec.Ast
